@@ -6,7 +6,11 @@
 //!              to length 4 is looked up and `for_each` is compared with the model.
 //! * `Stream` — a history, then segments typed key by key into `KeyMap::lookup_state` and
 //!              `KeyMapHandler::handle`: a bound chord from idle, or an unbound key followed
-//!              by a bound chord.
+//!              by a bound chord.  The handler then lives on through 0..3 *rebinds*: optionally
+//!              a proper prefix of a bound chord is typed and left pending, then the bindings
+//!              are replaced (`KeyMapHandler::clear()` + a new history that may repeat part of
+//!              the old one) or extended in place (`register` on top, no reset), and more
+//!              segments are typed.
 //! * `Parse`  — a string given to `FromStr` of `Key`, `KeyChord` or `KeyName`: never panics,
 //!              and whatever is accepted prints to a string that parses back to the same value.
 
@@ -50,6 +54,28 @@ pub struct Seg {
     pub partial: Option<(u16, u8)>,
 }
 
+/// A handler-level operation between two runs of segments: the bindings of the SAME
+/// `KeyMapHandler` are replaced or extended, possibly while keys are pending.
+#[derive(Clone, Debug, PartialEq, Eq, Serialize, Deserialize)]
+pub struct Rebind {
+    /// typed into the handler right before the operation and left pending: a proper prefix
+    /// (chord selector, length selector) of a bound chord of two or more keys
+    #[serde(default)]
+    pub pending: Option<(u16, u8)>,
+    /// true: `KeyMapHandler::clear()`, then the new history is registered (bit i of `keep` set =
+    /// operation i of the previous history is registered again first, as a reloaded
+    /// configuration would), then `ops`.  false: `ops` are registered on top of the current
+    /// bindings, nothing resets the matcher.
+    #[serde(default)]
+    pub clear: bool,
+    #[serde(default)]
+    pub keep: u16,
+    #[serde(default)]
+    pub ops: Vec<Op>,
+    #[serde(default)]
+    pub segs: Vec<Seg>,
+}
+
 #[derive(Clone, Copy, Debug, PartialEq, Eq, Serialize, Deserialize)]
 pub enum Target {
     Key,
@@ -60,7 +86,12 @@ pub enum Target {
 #[derive(Clone, Debug, Serialize, Deserialize)]
 pub enum Case {
     Map { ops: Vec<Op> },
-    Stream { ops: Vec<Op>, segs: Vec<Seg> },
+    Stream {
+        ops: Vec<Op>,
+        segs: Vec<Seg>,
+        #[serde(default)]
+        rebinds: Vec<Rebind>,
+    },
     Parse { target: Target, s: String },
 }
 
@@ -411,7 +442,7 @@ impl HistStats {
     }
 }
 
-/// Replays a history on a `KeyMap` and on the model.  With `every_step` the lookups over the
+/// Replays a history on a `KeyMap` and on the model (values `value_base`+1, +2, ...).  With `every_step` the lookups over the
 /// pool (`pool` keys, length ≤ `max_len`) and the enumeration are compared after every step.
 /// `on_register` receives every elementary registration in model order (used to replay the
 /// same history on a `KeyMapHandler`, which has no `register_override`).
@@ -420,12 +451,13 @@ fn replay_history(
     pool: u8,
     max_len: usize,
     every_step: bool,
+    value_base: u32,
     mut on_register: impl FnMut(&[K], u32),
 ) -> Result<(KeyMap<u32>, Model, HistStats), Fail> {
     let mut map: KeyMap<u32> = KeyMap::new();
     let mut model = Model::default();
     let mut st = HistStats::default();
-    let mut next_value = 0u32;
+    let mut next_value = value_base;
     for (step, op) in ops.iter().enumerate() {
         // the return value is judged after the state of the map (the dictionary behaviour is
         // what the property is about; the return value is only documented)
@@ -507,7 +539,7 @@ impl std::fmt::Debug for DisplayOps<'_> {
 }
 
 fn check_map(ops: &[Op]) -> Outcome {
-    let (_, _, st) = replay_history(ops, POOL, MAX_LOOKUP_LEN, true, |_, _| {})?;
+    let (_, _, st) = replay_history(ops, POOL, MAX_LOOKUP_LEN, true, 0, |_, _| {})?;
     Ok(st.labels("map", Pass::new(st.nontrivial()).label("map")))
 }
 
@@ -518,11 +550,67 @@ fn pick<T>(sel: u16, items: &[T]) -> &T {
     &items[sel as usize * items.len() / 65536]
 }
 
-fn check_stream(ops: &[Op], segs: &[Seg]) -> Outcome {
-    let mut handler: KeyMapHandler<u32> = KeyMapHandler::new();
+/// What the harness knows about the handler's matcher before the next key is typed.
+#[derive(Clone, Copy, PartialEq, Eq)]
+enum Sync {
+    /// a fresh handler, one whose last `handle` fired a chord, or one on which `clear()` was
+    /// called after the last key (registrations feed no keys and leave this as it is)
+    Idle,
+    /// a proper prefix was typed on purpose and left pending (the bindings may have been
+    /// extended since, so nothing is known about what those keys mean now)
+    Pending,
+}
+
+#[derive(Default)]
+struct StreamStats {
+    plain: usize,
+    noisy: usize,
+    multi: usize,
+    noise_inside: usize,
+    partials: usize,
+    partials_long: usize,
+    supersession: bool,
+    // handler-level operations
+    rebinds: usize,
+    clears: usize,
+    clears_pending: usize,
+    clears_keep_some: usize,
+    clear_then_typed: usize,
+    clear_pending_then_typed: usize,
+    clear_pending_then_noisy: usize,
+    stale_would_match: usize,
+    ontop: usize,
+    ontop_idle_then_typed: usize,
+    ontop_pending: usize,
+    resync: usize,
+}
+
+/// One set of bindings the handler lives through.
+struct Epoch<'a> {
+    map: &'a KeyMap<u32>,
+    model: &'a Model,
+    /// how the handler got here (for messages)
+    origin: String,
+    /// signature infix of the handler's verdicts on the first segment of the epoch
+    tag: &'static str,
+    /// the prefix that was pending when `clear()` was called (empty: none / no clear)
+    cleared_pending: Vec<K>,
+}
+
+/// Replays `ops` (values from `base`+1) on a new `KeyMap` and the model, and registers every
+/// elementary registration after the first `skip` ones on the handler.  Returns the number of
+/// elementary registrations as the fourth component.
+fn replay_on_handler(
+    ops: &[Op],
+    base: u32,
+    skip: usize,
+    handler: &mut KeyMapHandler<u32>,
+) -> Result<(KeyMap<u32>, Model, HistStats, usize), Fail> {
     let mut handler_panic = None;
-    let (map, model, hist) = replay_history(ops, POOL, MAX_LOOKUP_LEN, false, |c, v| {
-        if !c.is_empty() && handler_panic.is_none() {
+    let mut n = 0usize;
+    let (map, model, hist) = replay_history(ops, POOL, MAX_LOOKUP_LEN, false, base, |c, v| {
+        n += 1;
+        if n > skip && !c.is_empty() && handler_panic.is_none() {
             let keys = keys_of(c);
             if let Err(f) = guard_val(|| handler.register(&keys, v)) {
                 handler_panic = Some(f);
@@ -532,11 +620,22 @@ fn check_stream(ops: &[Op], segs: &[Seg]) -> Outcome {
     if let Some(f) = handler_panic {
         return Err(f);
     }
-    let mut pass = Pass::new(false).label("stream");
+    Ok((map, model, hist, n))
+}
+
+fn type_segments(
+    ep: &Epoch,
+    handler: &mut KeyMapHandler<u32>,
+    segs: &[Seg],
+    sync: &mut Sync,
+    st: &mut StreamStats,
+) -> Result<(), Fail> {
+    let (map, model) = (ep.map, ep.model);
     let bound: Vec<(&Vec<K>, u32)> = model.bound.iter().map(|(c, v)| (c, *v)).collect();
     if bound.is_empty() || segs.is_empty() {
-        return Ok(pass.label("stream/nothing-to-type"));
+        return Ok(());
     }
+    // both lists contain the two keys that are never registered, hence are never empty
     let unbound: Vec<K> = (0..POOL + EXTRA).filter(|k| !model.begins_chord(*k)).collect();
     let foreign: Vec<K> = (0..POOL + EXTRA)
         .filter(|k| !model.bound.keys().any(|c| c.contains(k)))
@@ -549,12 +648,22 @@ fn check_stream(ops: &[Op], segs: &[Seg]) -> Outcome {
     };
     // `state` is the caller-managed chord vector of lookup_state; idle = empty
     let mut state: Vec<Key> = Vec::new();
-    let (mut plain, mut noisy, mut multi, mut noise_inside) = (0, 0, 0, 0);
-    let (mut partials, mut partials_long) = (0, 0);
     for (si, seg) in segs.iter().enumerate() {
+        let first = si == 0;
+        let tag = if first { ep.tag } else { "" };
         let (chord, value) = *pick(seg.chord, &bound);
         let mut noise = seg.noise.map(|n| *pick(n, &unbound));
         let mut abandoned = String::new();
+        // the first key this segment feeds to the matcher
+        let mut first_typed: Option<K> = None;
+        let was_pending = *sync == Sync::Pending;
+        if was_pending {
+            // keys are pending in the handler and nothing resets it: the property promises
+            // nothing for a chord typed now, except after an unbound key.  That key is taken
+            // from the keys that occur in no bound chord at all.
+            noise = Some(*pick(seg.noise.unwrap_or(seg.chord), &foreign));
+            st.resync += 1;
+        }
         // lookup_state: idle is defined by the empty vector, so make it so
         state.clear();
         // an abandoned partial chord in front of the unbound key: the unbound key is then taken
@@ -575,9 +684,26 @@ fn check_stream(ops: &[Op], segs: &[Seg]) -> Outcome {
                 }
                 noise = Some(*pick(n, &foreign));
                 abandoned = show(&pc[..plen].to_vec());
-                partials += 1;
-                partials_long += (plen >= 2) as usize;
+                first_typed = Some(pc[0]);
+                st.partials += 1;
+                st.partials_long += (plen >= 2) as usize;
             }
+        }
+        if first && ep.tag == "after-clear/" {
+            st.clear_then_typed += 1;
+            if !ep.cleared_pending.is_empty() {
+                st.clear_pending_then_typed += 1;
+                st.clear_pending_then_noisy += noise.is_some() as usize;
+                // would keys that survived the clear be taken for the beginning of something in
+                // the new bindings?  (frequency of the situation in which a reset that forgets
+                // the pending keys can be told from one that does not)
+                let mut q = ep.cleared_pending.clone();
+                q.push(first_typed.or(noise).unwrap_or(chord[0]));
+                st.stale_would_match += (model.lookup(&q) != Look::Failure) as usize;
+            }
+        }
+        if first && ep.tag == "after-register/" && !was_pending {
+            st.ontop_idle_then_typed += 1;
         }
         if let Some(u) = noise {
             guard_val(|| {
@@ -586,20 +712,23 @@ fn check_stream(ops: &[Op], segs: &[Seg]) -> Outcome {
             guard_val(|| {
                 handler.handle(key_of(u));
             })?;
-            noisy += 1;
-            noise_inside += chord.contains(&u) as usize;
+            st.noisy += 1;
+            st.noise_inside += chord.contains(&u) as usize;
         } else {
-            plain += 1;
+            st.plain += 1;
         }
-        multi += (chord.len() > 1) as usize;
+        st.multi += (chord.len() > 1) as usize;
         for (i, k) in chord.iter().enumerate() {
             let last = i + 1 == chord.len();
             let got_state = guard_val(|| map.lookup_state(&mut state, key_of(*k)).copied())?;
             let got_handler = guard_val(|| handler.handle(key_of(*k)).copied())?;
             for (api, got) in [("lookup_state", got_state), ("handler", got_handler)] {
+                // the way the handler got here matters for the handler only
+                let tag = if api == "handler" { tag } else { "" };
                 let ctx = || {
                     format!(
-                        "segment {si}: {}typing bound chord [{}] (value {value}) from idle, key #{i} ({:?}) via {api} returned {:?}; bound chords {:?}; earlier segments {:?}",
+                        "{}, segment {si}: {}typing bound chord [{}] (value {value}) {}, key #{i} ({:?}) via {api} returned {:?}; bound chords {:?}; earlier segments {:?}",
+                        ep.origin,
                         match noise {
                             Some(u) if !abandoned.is_empty() => format!(
                                 "after the abandoned partial chord [{abandoned}] and the unbound key {:?}, ",
@@ -609,6 +738,11 @@ fn check_stream(ops: &[Op], segs: &[Seg]) -> Outcome {
                             None => String::new(),
                         },
                         show(chord),
+                        if was_pending && api == "handler" {
+                            "with keys pending before the unbound key"
+                        } else {
+                            "from idle"
+                        },
                         key_of(*k),
                         got,
                         bound_desc(),
@@ -623,29 +757,165 @@ fn check_stream(ops: &[Op], segs: &[Seg]) -> Outcome {
                     } else {
                         "fires-wrong-value"
                     };
-                    ensure!(got == Some(value), format!("matcher/{api}/{class}"), "{}", ctx());
+                    ensure!(got == Some(value), format!("matcher/{api}/{tag}{class}"), "{}", ctx());
                 } else if noise.is_none() {
                     // the property states "exactly at its last key" only for a chord typed
                     // from idle; after an unbound key it only promises that the chord fires
                     ensure!(
                         got.is_none(),
-                        format!("matcher/{api}/fires-before-last-key"),
+                        format!("matcher/{api}/{tag}fires-before-last-key"),
                         "{}",
                         ctx()
                     );
                 }
             }
         }
+        // the chord fired at its last key: nothing is pending
+        *sync = Sync::Idle;
     }
-    pass.nontrivial = multi > 0 || noisy > 0;
+    Ok(())
+}
+
+fn check_stream(ops: &[Op], segs: &[Seg], rebinds: &[Rebind]) -> Outcome {
+    let mut handler: KeyMapHandler<u32> = KeyMapHandler::new();
+    let mut st = StreamStats::default();
+    let mut sync = Sync::Idle;
+    // the history whose bindings the handler currently holds, the base of its values, and the
+    // number of elementary registrations it consists of
+    let mut cur_ops: Vec<Op> = ops.to_vec();
+    let mut cur_base = 0u32;
+    let (mut map, mut model, hist, mut n_elem) = replay_on_handler(&cur_ops, cur_base, 0, &mut handler)?;
+    st.supersession |= hist.nontrivial();
+    let mut pass = Pass::new(false).label("stream");
+    type_segments(
+        &Epoch {
+            map: &map,
+            model: &model,
+            origin: "fresh handler, history registered".into(),
+            tag: "",
+            cleared_pending: Vec::new(),
+        },
+        &mut handler,
+        segs,
+        &mut sync,
+        &mut st,
+    )?;
+    for (ri, rb) in rebinds.iter().enumerate() {
+        st.rebinds += 1;
+        // a proper prefix of a bound chord, typed from idle and left pending
+        let mut pending: Vec<K> = Vec::new();
+        if let (Some((csel, plen)), Sync::Idle) = (rb.pending, sync) {
+            let long: Vec<&Vec<K>> = model.bound.keys().filter(|c| c.len() >= 2).collect();
+            if !long.is_empty() {
+                let pc = *pick(csel, &long);
+                let plen = 1 + plen as usize % (pc.len() - 1);
+                for (i, k) in pc[..plen].iter().enumerate() {
+                    let got = guard_val(|| handler.handle(key_of(*k)).copied())?;
+                    ensure!(
+                        got.is_none(),
+                        "matcher/handler/fires-before-last-key",
+                        "rebind {ri}: typing the proper prefix [{}] of the bound chord [{}] from idle, key #{i} via handler returned {:?}; bound chords {:?}",
+                        show(&pc[..plen]),
+                        show(pc),
+                        got,
+                        model.bound.iter().map(|(c, v)| format!("{}=>{}", show(c), v)).collect::<Vec<_>>()
+                    );
+                }
+                pending = pc[..plen].to_vec();
+                sync = Sync::Pending;
+            }
+        }
+        let pending_desc = if pending.is_empty() {
+            match sync {
+                Sync::Idle => "the handler idle".to_string(),
+                Sync::Pending => "keys of an earlier rebind still pending".to_string(),
+            }
+        } else {
+            format!("the prefix [{}] typed and pending", show(&pending))
+        };
+        let (origin, tag, skip);
+        if rb.clear {
+            guard_val(|| handler.clear())?;
+            // clear() is the handler's reset: no bindings, no keys -- the state of new()
+            sync = Sync::Idle;
+            st.clears += 1;
+            st.clears_pending += !pending.is_empty() as usize;
+            let mut new_ops: Vec<Op> = cur_ops
+                .iter()
+                .enumerate()
+                .filter(|(i, _)| *i < 16 && rb.keep >> *i & 1 == 1)
+                .map(|(_, op)| op.clone())
+                .collect();
+            st.clears_keep_some += !new_ops.is_empty() as usize;
+            new_ops.extend(rb.ops.iter().cloned());
+            cur_ops = new_ops;
+            cur_base = 1000 * (ri as u32 + 1);
+            skip = 0;
+            tag = "after-clear/";
+            origin = format!(
+                "rebind {ri}: with {pending_desc}, KeyMapHandler::clear() then {:?} registered",
+                DisplayOps(&cur_ops)
+            );
+        } else {
+            st.ontop += 1;
+            st.ontop_pending += (sync == Sync::Pending) as usize;
+            cur_ops.extend(rb.ops.iter().cloned());
+            skip = n_elem;
+            tag = "after-register/";
+            origin = format!(
+                "rebind {ri}: with {pending_desc}, {:?} registered on top (no clear)",
+                DisplayOps(rb.ops.as_slice())
+            );
+        }
+        let (m, md, hist, n) = replay_on_handler(&cur_ops, cur_base, skip, &mut handler)?;
+        map = m;
+        model = md;
+        n_elem = n;
+        st.supersession |= hist.nontrivial();
+        type_segments(
+            &Epoch {
+                map: &map,
+                model: &model,
+                origin,
+                tag,
+                cleared_pending: if rb.clear { pending } else { Vec::new() },
+            },
+            &mut handler,
+            &rb.segs,
+            &mut sync,
+            &mut st,
+        )?;
+    }
+    pass.nontrivial = st.multi > 0 || st.noisy > 0;
+    if st.plain + st.noisy == 0 {
+        pass = pass.label("stream/nothing-to-type");
+    }
     pass = pass
-        .label_if(plain > 0, "stream/chord-from-idle")
-        .label_if(noisy > 0, "stream/unbound-key-then-chord")
-        .label_if(multi > 0, "stream/multi-key-chord")
-        .label_if(noise_inside > 0, "stream/unbound-key-occurs-inside-the-chord")
-        .label_if(partials > 0, "stream/abandoned-partial-chord-then-unbound-key")
-        .label_if(partials_long > 0, "stream/abandoned-partial-chord-of-2+-keys-then-unbound-key")
-        .label_if(hist.nontrivial(), "stream/history-with-supersession");
+        .label_if(st.plain > 0, "stream/chord-from-idle")
+        .label_if(st.noisy > 0, "stream/unbound-key-then-chord")
+        .label_if(st.multi > 0, "stream/multi-key-chord")
+        .label_if(st.noise_inside > 0, "stream/unbound-key-occurs-inside-the-chord")
+        .label_if(st.partials > 0, "stream/abandoned-partial-chord-then-unbound-key")
+        .label_if(st.partials_long > 0, "stream/abandoned-partial-chord-of-2+-keys-then-unbound-key")
+        .label_if(st.supersession, "stream/history-with-supersession")
+        .label_if(st.rebinds > 0, "stream/rebind")
+        .label_if(st.clears > 0, "stream/rebind/clear")
+        .label_if(st.clears_keep_some > 0, "stream/rebind/clear/new-history-repeats-old-registrations")
+        .label_if(st.clear_then_typed > 0, "stream/rebind/clear/then-chord-typed")
+        .label_if(st.clears_pending > 0, "stream/rebind/clear-while-prefix-pending")
+        .label_if(st.clear_pending_then_typed > 0, "stream/rebind/clear-while-prefix-pending/then-chord-typed")
+        .label_if(
+            st.clear_pending_then_noisy > 0,
+            "stream/rebind/clear-while-prefix-pending/then-unbound-key-then-chord",
+        )
+        .label_if(
+            st.stale_would_match > 0,
+            "stream/rebind/clear-while-prefix-pending/old-prefix+next-key-begins-something-in-new-bindings",
+        )
+        .label_if(st.ontop > 0, "stream/rebind/register-on-top")
+        .label_if(st.ontop_idle_then_typed > 0, "stream/rebind/register-on-top/idle-then-chord-typed")
+        .label_if(st.ontop_pending > 0, "stream/rebind/register-on-top-while-prefix-pending")
+        .label_if(st.resync > 0, "stream/rebind/keys-pending-then-unbound-key-then-chord");
     Ok(pass)
 }
 
@@ -823,6 +1093,26 @@ fn seg_strategy() -> BoxedStrategy<Seg> {
     )
         .prop_map(|(noise, chord, partial)| Seg { noise, chord, partial: noise.and(partial) })
         .boxed()
+}
+
+fn rebind_strategy() -> BoxedStrategy<Rebind> {
+    (
+        proptest::option::weighted(0.7, (any::<u16>(), any::<u8>())),
+        proptest::bool::weighted(0.65),
+        prop_oneof![2 => Just(u16::MAX), 1 => Just(0u16), 3 => any::<u16>()],
+        proptest::collection::vec(op_strategy(), 0..5),
+        proptest::collection::vec(seg_strategy(), 0..4),
+    )
+        .prop_map(|(pending, clear, keep, ops, segs)| Rebind { pending, clear, keep, ops, segs })
+        .boxed()
+}
+
+fn rebinds_strategy() -> BoxedStrategy<Vec<Rebind>> {
+    prop_oneof![
+        2 => Just(Vec::new()),
+        3 => proptest::collection::vec(rebind_strategy(), 1..=3),
+    ]
+    .boxed()
 }
 
 const MODS: [&str; 10] = [
@@ -1090,8 +1380,8 @@ impl Property for C18 {
     fn strategy(&self, _tier: Tier) -> BoxedStrategy<Case> {
         prop_oneof![
             5 => ops_strategy().prop_map(|ops| Case::Map { ops }),
-            5 => (ops_strategy(), proptest::collection::vec(seg_strategy(), 0..8))
-                .prop_map(|(ops, segs)| Case::Stream { ops, segs }),
+            7 => (ops_strategy(), proptest::collection::vec(seg_strategy(), 0..8), rebinds_strategy())
+                .prop_map(|(ops, segs, rebinds)| Case::Stream { ops, segs, rebinds }),
             50 => parse_strategy(),
         ]
         .boxed()
@@ -1100,7 +1390,7 @@ impl Property for C18 {
     fn check(&self, case: &Case) -> Outcome {
         match case {
             Case::Map { ops } => check_map(ops),
-            Case::Stream { ops, segs } => check_stream(ops, segs),
+            Case::Stream { ops, segs, rebinds } => check_stream(ops, segs, rebinds),
             Case::Parse { target, s } => check_parse(*target, s),
         }
     }
@@ -1110,8 +1400,9 @@ impl Property for C18 {
     }
 
     fn rule(&self) -> String {
-        "generated, weights 5:5:50 — (Map) histories vec(register(chord of 0..=4 keys from a pool of 6 keys that share names and differ in modifiers) | register_override(other map built from 0..6 registrations), 0..12) with a distinct value per registration; after EVERY step all 1554 non-empty chords of length <=4 over the pool are looked up and for_each is compared with a dictionary model, and the return value of register is compared with what its doc comment promises; non-trivial = some registration superseded a bound proper prefix or bound extensions. \
+        "generated, weights 5:7:50 — (Map) histories vec(register(chord of 0..=4 keys from a pool of 6 keys that share names and differ in modifiers) | register_override(other map built from 0..6 registrations), 0..12) with a distinct value per registration; after EVERY step all 1554 non-empty chords of length <=4 over the pool are looked up and for_each is compared with a dictionary model, and the return value of register is compared with what its doc comment promises; non-trivial = some registration superseded a bound proper prefix or bound extensions. \
          (Stream) the same histories on KeyMap and KeyMapHandler, then 0..8 segments typed key by key through lookup_state (state vector emptied first) and KeyMapHandler::handle (chained): a bound chord, optionally preceded by one key that begins no bound chord (from the pool or two keys never registered), that key optionally preceded by an abandoned proper prefix of a bound chord (the key is then one that occurs in no bound chord); non-trivial = a multi-key chord or an unbound key was typed. \
+         In 3 of 5 Stream cases the SAME KeyMapHandler then lives through 1..=3 rebinds, each: with p=0.7 a proper prefix of a bound chord of 2+ keys is typed from idle and left pending (must not fire); then either (p=0.65) KeyMapHandler::clear() followed by a new history = the operations of the previous history selected by a 16-bit mask (all / none / random: a reloaded configuration) + 0..5 fresh operations, with values from a new range, or (p=0.35) 0..5 operations registered on top without clear; then 0..4 more segments against the new bindings (lookup_state runs on a fresh KeyMap holding the same bindings). Right after clear() the handler counts as idle, so the first segment carries both demands (signatures matcher/handler/after-clear/*); while a prefix is pending and nothing has reset the matcher, the next segment is forced to begin with a key that occurs in no bound chord and only the firing of the chord after it is demanded (matcher/handler/after-register/*). \
          (Parse) strings for FromStr of Key / KeyChord / KeyName: grammar-shaped (modifier and name tokens in mixed case, f+1..30 digits incl. usize::MAX and usize::MAX+1, quoted characters, characters whose lowercase changes byte length such as İ ẞ ǅ K, attributes joined by '+', keys joined by 1..3 spaces/tab/NBSP, leading/trailing spaces), the same with one arbitrary character inserted or replaced, and arbitrary Unicode strings; non-trivial = the string was accepted, so the print/parse round trip ran. \
          sweep: (a) every history of 4 registrations over the 14 chords of length <=3 over 2 keys (38416 histories, all 30 chords of length <=4 looked up after every step); (b) every Unicode scalar value c in the strings c, c+\"1\", \"f\"+c, \"ctrl+\"+c, for all three parsers".into()
     }
@@ -1121,7 +1412,9 @@ impl Property for C18 {
             "dictionary model: register(c, v) with non-empty c removes every bound chord that is a prefix of c, an extension of c, or c itself, then binds c to v; registering the empty chord changes nothing; register_override(other) registers other's pairs (other is prefix-free, so their order cannot matter)".into(),
             "for_each is compared as a set of (chord, value) pairs".into(),
             "register's return value is checked only against its doc comment: Some(Ok(previous value)) when exactly that chord was bound, Some(Err(map listing the bindings below the chord)) when it was a proper prefix of bound chords, None otherwise".into(),
-            "idle state of the stateful matcher = empty chord vector (lookup_state; the harness empties it before each segment) / a fresh KeyMapHandler or one whose last call fired a chord".into(),
+            "idle state of the stateful matcher = empty chord vector (lookup_state; the harness empties it before each segment) / a fresh KeyMapHandler, one whose last call fired a chord, or one on which clear() has been called since the last key".into(),
+            "KeyMapHandler::clear() (undocumented; it is the handler's only reset and drops all bindings) puts the handler into the state of KeyMapHandler::new(): no bindings and no pending keys, whatever was typed before; chords of the bindings registered afterwards are therefore typed from idle".into(),
+            "KeyMapHandler::register feeds no keys: an idle handler stays idle across registrations (as a fresh handler does while its first bindings are registered). About keys that are PENDING when bindings are registered without clear() the oracle demands nothing (the property does not say what an old prefix means under new bindings), except the clause that holds for all key sequences: after a key that begins no bound chord of the current bindings (the harness takes one that occurs in no bound chord at all) the bound chord typed next fires at its last key".into(),
             "after an unbound key the oracle only requires that the bound chord typed next returns its value at its last key; it is silent about the result for the unbound key itself and for the chord's earlier keys".into(),
             "parsers: Error values are not compared, only Ok values (Key, KeyChord, KeyName implement Eq)".into(),
         ]
@@ -1148,7 +1441,7 @@ impl Property for C18 {
                     op
                 })
                 .collect();
-            match replay_history(&ops, 2, 4, true, |_, _| {}) {
+            match replay_history(&ops, 2, 4, true, 0, |_, _| {}) {
                 Ok((_, _, st)) => nontrivial += st.nontrivial() as u64,
                 Err(f) => return Err((Case::Map { ops }, f)),
             }
